@@ -87,6 +87,7 @@ func (g *wGen) step() {
 		}
 		return
 	}
+	h.syncTrusted(wl)
 	m := wl.home
 	if len(wl.trusted) > 1 && rng.Intn(3) == 0 {
 		m = pick(rng, wl.trusted)
@@ -338,7 +339,28 @@ func wScenarios(prop, tier string, rng *rand.Rand) []wScenario {
 		}
 		return h
 	})
+	// two SIG_ALL tokens from a mint the receiver does not trust, both swapped to the trusted mint:
+	// the intermediate swap at the untrusted mint derives its outputs from a counter the wallet does not store
+	out = append(out, func(sink *Sink, rng *rand.Rand, scratch string) *wHist {
+		h := newWHist(sink, rng, scratch, prop, wCfg{fees: []uint{0, 0}, feePct: []uint64{1, 1}, homes: []int{0, 1}})
+		h.nontrivial = true
+		h.OpMint(0, 0, 1000, true, 0)
+		h.OpSendP2PK(0, 0, 200, false, 1, true, 0)
+		h.OpSendP2PK(0, 0, 100, false, 1, true, 0)
+		h.OpReceive(1, 0, true, 0)
+		h.OpReceive(1, 1, true, 0)
+		return h
+	})
 	if prop == "C19" {
+		// a wallet process cut between the two SaveKeyset calls with which getActiveKeyset records a rotation
+		out = append(out, func(sink *Sink, rng *rand.Rand, scratch string) *wHist {
+			h := newWHist(sink, rng, scratch, prop, wCfg{fees: []uint{0}, feePct: []uint64{1}, homes: []int{0}})
+			h.nontrivial = true
+			h.OpMint(0, 0, 100, true, 0)
+			h.OpRotate(0, 100)
+			h.OpMint(0, 0, 50, true, 5)
+			return h
+		})
 		// more than 300 outputs on one keyset; restore; continue; restore again
 		sizes := []int{250}
 		if tier == "thorough" {
